@@ -32,29 +32,31 @@ var (
 	evR5     = sim.RegisterEv(203, "r5")
 	evPipe   = sim.RegisterEv(204, "pipe")
 
-	cNontrivial   = simrt.RegisterCounter("nontrivial")
-	cRegInDecode  = simrt.RegisterCounter("probe_register_inside_decode")
-	cRegRejected  = simrt.RegisterCounter("probe_register_rejected_cid")
-	cReRegister   = simrt.RegisterCounter("probe_reregister_other_size")
-	cSizeZero     = simrt.RegisterCounter("probe_register_size0_noop")
-	cDecodes      = simrt.RegisterCounter("op_decode_stream")
-	cDecodeErr    = simrt.RegisterCounter("probe_decode_truncated")
-	cGets         = simrt.RegisterCounter("op_get_size")
-	cRegs         = simrt.RegisterCounter("op_register")
-	cR5           = simrt.RegisterCounter("op_lossless_or_error")
-	cR5Wild       = simrt.RegisterCounter("probe_r5_out_of_range_value")
-	cR5Rejected   = simrt.RegisterCounter("probe_r5_encoder_rejected")
-	cResolution   = simrt.RegisterCounter("op_wire_resolution_checks")
-	cNotJudged    = simrt.RegisterCounter("probe_functional_mismatch_not_judged")
-	cPipes        = simrt.RegisterCounter("op_frame_roundtrip")
-	cPropInStream = simrt.RegisterCounter("probe_proprietary_in_stream")
-	cFull15       = simrt.RegisterCounter("probe_fopts_15_bytes")
-	cLong         = simrt.RegisterCounter("probe_frm_over_200_bytes")
-	cOtherDir     = simrt.RegisterCounter("probe_cid_registered_in_other_direction")
-	cPorcOK       = simrt.RegisterCounter("porcupine_ok")
-	cPorcUnknown  = simrt.RegisterCounter("porcupine_unknown")
-	cPorcIllegal  = simrt.RegisterCounter("porcupine_illegal")
-	cHistOps      = simrt.RegisterCounter("history_ops")
+	cNontrivial       = simrt.RegisterCounter("nontrivial")
+	cRegInDecode      = simrt.RegisterCounter("probe_register_inside_decode")
+	cRegRejected      = simrt.RegisterCounter("probe_register_rejected_cid")
+	cReRegister       = simrt.RegisterCounter("probe_reregister_other_size")
+	cSizeZero         = simrt.RegisterCounter("probe_register_size0_noop")
+	cDecodes          = simrt.RegisterCounter("op_decode_stream")
+	cDecodeErr        = simrt.RegisterCounter("probe_decode_truncated")
+	cGets             = simrt.RegisterCounter("op_get_size")
+	cRegs             = simrt.RegisterCounter("op_register")
+	cR5               = simrt.RegisterCounter("op_lossless_or_error")
+	cR5Wild           = simrt.RegisterCounter("probe_r5_out_of_range_value")
+	cWildFrame        = simrt.RegisterCounter("op_frame_with_possibly_out_of_range_command")
+	cWildFrameRefused = simrt.RegisterCounter("probe_frame_with_out_of_range_command_refused")
+	cR5Rejected       = simrt.RegisterCounter("probe_r5_encoder_rejected")
+	cResolution       = simrt.RegisterCounter("op_wire_resolution_checks")
+	cNotJudged        = simrt.RegisterCounter("probe_functional_mismatch_not_judged")
+	cPipes            = simrt.RegisterCounter("op_frame_roundtrip")
+	cPropInStream     = simrt.RegisterCounter("probe_proprietary_in_stream")
+	cFull15           = simrt.RegisterCounter("probe_fopts_15_bytes")
+	cLong             = simrt.RegisterCounter("probe_frm_over_200_bytes")
+	cOtherDir         = simrt.RegisterCounter("probe_cid_registered_in_other_direction")
+	cPorcOK           = simrt.RegisterCounter("porcupine_ok")
+	cPorcUnknown      = simrt.RegisterCounter("porcupine_unknown")
+	cPorcIllegal      = simrt.RegisterCounter("porcupine_illegal")
+	cHistOps          = simrt.RegisterCounter("history_ops")
 )
 
 // ---- model registry shared by the tasks (harness bookkeeping: norace) ----
@@ -186,8 +188,10 @@ func operator(h *history, me, nOper, n int, sub uint64) {
 		switch k := r.Intn(10); {
 		case k < 7:
 			cid = 0x80 + byte(r.Intn(4))
-		case k < 9:
+		case k < 8:
 			cid = 0x80 + byte(r.Intn(128))
+		case k < 9:
+			cid = 0xfc + byte(r.Intn(4)) // the last proprietary CIDs
 		default:
 			cid = byte(r.Intn(128))
 		}
@@ -240,7 +244,7 @@ func genFor(up bool) spec.CmdGen {
 	}
 	// up to three other CIDs that are registered in this direction
 	extra := 0
-	for c := 0x84; c < 0x100 && extra < 3; c++ {
+	for c := 0xff; c >= 0x84 && extra < 3; c-- {
 		if n := modelGet(up, byte(c)); n > 0 {
 			g.Prop[byte(c)] = n
 			extra++
@@ -268,6 +272,8 @@ func encodeStream(h *history, id int, cs []spec.Cmd) ([]byte, bool) {
 		if err != nil {
 			if c.CID >= 0x80 {
 				h.refusals[id] = append(h.refusals[id], encRefusal{inv, ret, c.Up, c.CID, len(c.Raw), err.Error()})
+			} else if d := spec.Desc(c.Up, c.CID); d != nil && !d.InSpec(c) {
+				simrt.Count(cNotJudged) // a legacy value: the encoder need not take it
 			} else {
 				simrt.Report(rejectedSig(c), fmt.Sprintf("spec-valid command %v refused by encoder: %v", c, err))
 			}
@@ -341,9 +347,12 @@ func codec(h *history, id, n int, sub uint64) {
 		case k < 8:
 			getSize(h, id, r, up)
 		default:
-			if r.Intn(6) == 0 {
+			switch x := r.Intn(6); {
+			case x == 0:
 				resolution(r)
-			} else {
+			case x == 1:
+				wildFrame(r, up)
+			default:
 				losslessOrError(r, up)
 			}
 		}
@@ -575,6 +584,97 @@ func resolution(r *sim.Rand) {
 	}
 	if diff >= 3906250 {
 		simrt.Report("r5.lossy:DeviceTimeAns", fmt.Sprintf("duration %v (%d ns) encoded without error to %x but decodes to %v: off by %v, more than the 1/256 s wire resolution", d, int64(d), b, got, diff))
+	}
+}
+
+// wildFrame is R5 at the level of a frame: a sequence of commands of which
+// one may carry out-of-range fields is put into FOpts or a port-0 FRMPayload.
+// Serialising the frame either reports an error or produces bytes that decode
+// into exactly that sequence - a command that cannot be encoded is never
+// silently left out or turned into another one.
+func wildFrame(r *sim.Rand, up bool) {
+	ds := spec.DescsDir(up)
+	n := 2 + r.Intn(3)
+	var cmds []spec.Cmd
+	wildAt := r.Intn(n)
+	budget := 15
+	port0 := r.Intn(2) == 0
+	if port0 {
+		budget = 60
+	}
+	for i := 0; i < n; i++ {
+		d := ds[r.Intn(len(ds))]
+		if 1+d.Size > budget {
+			continue
+		}
+		var c spec.Cmd
+		if i == wildAt && d.Size > 0 {
+			c = d.GenWildCmd(r)
+			if back, ok := spec.FromLibCmd(up, spec.ToLibCmd(c)); !ok || !back.Equal(c) {
+				c = d.GenCmd(r) // outside the Go type domain: says nothing
+			}
+		} else {
+			c = d.GenCmd(r)
+		}
+		cmds = append(cmds, c)
+		budget -= 1 + d.Size
+	}
+	if len(cmds) < 2 {
+		return
+	}
+	mt := lorawan.UnconfirmedDataDown
+	if up {
+		mt = lorawan.UnconfirmedDataUp
+	}
+	mp := &lorawan.MACPayload{FHDR: lorawan.FHDR{DevAddr: lorawan.DevAddr{9, 9, 9, 9}, FCnt: uint32(r.Intn(1 << 16))}}
+	where := "frame.FOpts"
+	if port0 {
+		where = "frame.FRMPayload"
+		p0 := uint8(0)
+		mp.FPort = &p0
+		for _, c := range cmds {
+			mp.FRMPayload = append(mp.FRMPayload, spec.ToLibCmd(c))
+		}
+	} else {
+		for _, c := range cmds {
+			mp.FHDR.FOpts = append(mp.FHDR.FOpts, spec.ToLibCmd(c))
+		}
+	}
+	phy := lorawan.PHYPayload{MHDR: lorawan.MHDR{MType: mt, Major: lorawan.LoRaWANR1}, MACPayload: mp}
+	simrt.Count(cWildFrame)
+	b, err := phy.MarshalBinary()
+	if err != nil {
+		simrt.Count(cWildFrameRefused)
+		return
+	}
+	var rx lorawan.PHYPayload
+	if err := rx.UnmarshalBinary(append([]byte(nil), b...)); err != nil {
+		simrt.Report("r5.undecodable:"+where, fmt.Sprintf("frame with commands %v serialised without error to %x which the decoder refuses: %v", cmds, b, err))
+		return
+	}
+	rmp, ok := rx.MACPayload.(*lorawan.MACPayload)
+	if !ok {
+		return
+	}
+	var pls []lorawan.Payload
+	if port0 {
+		err = rx.DecodeFRMPayloadToMACCommands()
+		pls = rmp.FRMPayload
+	} else {
+		err = rx.DecodeFOptsToMACCommands()
+		pls = rmp.FHDR.FOpts
+	}
+	if err != nil {
+		simrt.Report("r5.undecodable:"+where, fmt.Sprintf("frame with commands %v serialised without error to %x whose command stream does not decode: %v", cmds, b, err))
+		return
+	}
+	got, ok := spec.FromLibPayloads(up, pls)
+	same := ok && len(got) == len(cmds)
+	for i := 0; same && i < len(cmds); i++ {
+		same = got[i].Equal(cmds[i])
+	}
+	if !same {
+		simrt.Report("r5.lossy:"+where, fmt.Sprintf("frame with commands %v serialised without error to %x but decodes to %v", cmds, b, got))
 	}
 }
 
